@@ -621,13 +621,17 @@ func (maybeSelf someDef[T]) ToInt32() (int32, error) {
 		return 0, ErrConversionSizeOverflow
 	case float32:
 		val, err := maybeSelf.ToFloat32()
-		if val >= math.MinInt32 && val <= math.MaxInt32 {
+		// compare as float64: float32(math.MaxInt32) rounds up to 2^31
+		if float64(val) >= math.MinInt32 && float64(val) <= math.MaxInt32 {
 			return int32(math.Round(float64(val))), err
 		}
 		return 0, ErrConversionSizeOverflow
 	case float64:
 		val, err := maybeSelf.ToFloat64()
-		return int32(math.Round(val)), err
+		if val >= math.MinInt32 && val <= math.MaxInt32 {
+			return int32(math.Round(val)), err
+		}
+		return 0, ErrConversionSizeOverflow
 	}
 }
 
@@ -692,13 +696,13 @@ func (maybeSelf someDef[T]) ToInt64() (int64, error) {
 		return (ref).(int64), nil
 	case float32:
 		val, err := maybeSelf.ToFloat32()
-		if val >= math.MinInt64 && val <= math.MaxInt64 {
+		if val >= math.MinInt64 && val < math.MaxInt64 {
 			return int64(math.Round(float64(val))), err
 		}
 		return 0, ErrConversionSizeOverflow
 	case float64:
 		val, err := maybeSelf.ToFloat64()
-		if val >= math.MinInt64 && val <= math.MaxInt64 {
+		if val >= math.MinInt64 && val < math.MaxInt64 {
 			return int64(math.Round(val)), err
 		}
 		return 0, ErrConversionSizeOverflow
@@ -1066,13 +1070,16 @@ func (maybeSelf someDef[T]) ToUint32() (uint32, error) {
 		return 0, ErrConversionSizeOverflow
 	case float32:
 		val, err := maybeSelf.ToFloat32()
-		if val >= 0 && val <= math.MaxUint32 {
+		if val >= 0 && float64(val) <= math.MaxUint32 {
 			return uint32(math.Round(float64(val))), err
 		}
 		return 0, ErrConversionSizeOverflow
 	case float64:
 		val, err := maybeSelf.ToFloat64()
-		return uint32(math.Round(val)), err
+		if val >= 0 && val <= math.MaxUint32 {
+			return uint32(math.Round(val)), err
+		}
+		return 0, ErrConversionSizeOverflow
 	}
 }
 
@@ -1147,13 +1154,13 @@ func (maybeSelf someDef[T]) ToUint64() (uint64, error) {
 		return 0, ErrConversionSizeOverflow
 	case float32:
 		val, err := maybeSelf.ToFloat32()
-		if val >= 0 && val <= math.MaxUint64 {
+		if val >= 0 && val < math.MaxUint64 {
 			return uint64(math.Round(float64(val))), err
 		}
 		return 0, ErrConversionSizeOverflow
 	case float64:
 		val, err := maybeSelf.ToFloat64()
-		if val >= 0 && val <= math.MaxUint64 {
+		if val >= 0 && val < math.MaxUint64 {
 			return uint64(math.Round(val)), err
 		}
 		return 0, ErrConversionSizeOverflow
@@ -1236,10 +1243,17 @@ func (maybeSelf someDef[T]) ToUintptr() (uintptr, error) {
 		return uintptr(0), ErrConversionSizeOverflow
 	case float32:
 		val, err := maybeSelf.ToFloat32()
-		return uintptr(math.Round(float64(val))), err
+		// float64(maxUintptr) rounds up to a power of two when uintptr is 64 bits wide: strict bound
+		if val >= 0 && (float64(val) <= math.MaxUint32 || float64(val) < float64(maxUintptr)) {
+			return uintptr(math.Round(float64(val))), err
+		}
+		return 0, ErrConversionSizeOverflow
 	case float64:
 		val, err := maybeSelf.ToFloat64()
-		return uintptr(math.Round(val)), err
+		if val >= 0 && (val <= math.MaxUint32 || val < float64(maxUintptr)) {
+			return uintptr(math.Round(val)), err
+		}
+		return 0, ErrConversionSizeOverflow
 	}
 }
 
